@@ -1,3 +1,5 @@
 SPECIFICATION TraceSpec
+CONSTANTS
+  Focus <- FocusFromEnv
 POSTCONDITION TraceAccepted
 CHECK_DEADLOCK FALSE
